@@ -1,5 +1,6 @@
 import Kopf.Drv.Json
 import Kopf.Model.C05_Cause
+import Kopf.Model.C05_Record
 open Lean
 namespace Kopf.Drv.C05
 open Kopf.C05
@@ -38,6 +39,35 @@ def causeOf? (j : Json) : Option Cause := do
   let i ← jBool? (← jField? j "initial")
   let m ← jBool? (← jField? j "marked")
   some ⟨r, i, m⟩
+
+/-- `{"kind": str, "owners": [str], "annotations": [[key, nat | null]], "status": nat | null}`: the records are
+    tagged by numbers; `null` = an annotation whose text is JSON `null` / an absent status field -/
+def objOf? (j : Json) : Option (Obj Nat) := do
+  let kind ← jStr? (← jField? j "kind")
+  let owners ← jStrList? (← jField? j "owners")
+  let anns ← (← jArr? (← jField? j "annotations")).mapM fun kv => do
+    match ← jArr? kv with
+    | [k, v] => some (← jStr? k, ← jOpt? jNat? v)
+    | _ => none
+  let st ← jOpt? jNat? (← jField? j "status")
+  some ⟨kind, owners, anns, st⟩
+
+/-- `["ann", key, keys of the plain name, keys of the marked name]` (what `make_keys` gives for the two names;
+    nothing for any other name) | `["status"]` -/
+def storageOf? (j : Json) : Option Storage := do
+  match ← jArr? j with
+  | [t, key, kp, km] =>
+      if (← jStr? t) != "ann" then none else
+      let key ← jStr? key
+      let kp ← jStrList? kp
+      let km ← jStrList? km
+      some (.ann (fun n => if n == key then kp else if n == key ++ "-ofDRS" then km else []) key)
+  | [t] => if (← jStr? t) == "status" then some .status else none
+  | _ => none
+
+def optNat : Option Nat → Json
+  | some n => .num n
+  | none => .null
 
 def handle : DrvHandler := fun op args =>
   match op, args with
@@ -87,6 +117,18 @@ def handle : DrvHandler := fun op args =>
       some (ok (Json.mkObj [("needs_change", .bool s.needsChange), ("parent", .bool (invocableRC p i mb)),
                             ("sub_gate", .bool (gateS s (detect i))), ("sub", .bool (subInvocableRC p s i mb)),
                             ("finalizer_cycle", .bool (finalizerCycle i mb))]))
+  -- ["C05.fetch", object, [storage, ...], six-without-the-fourth [deleted, marked, blocked, diff, initial]]
+  --   → what the configured storage has for the object, and the cause that follows from it
+  | "C05.fetch", [o, ss, five] => do
+      let o ← objOf? o
+      let ss ← (← jArr? ss).mapM storageOf?
+      let old := fetchMulti ss o
+      match ← (← jArr? five).mapM jBool? with
+      | [d, m, b, df, ini] =>
+          let c := detect (factsOf d m b old (df && old.isSome) ini)
+          some (ok (Json.mkObj [("old", optNat old), ("is_drs", .bool (isDRS o)),
+                                ("reason", .str (reasonStr c.reason)), ("initial", .bool c.initial)]))
+      | _ => none
   | _, _ => none
 
 end Kopf.Drv.C05
